@@ -25,6 +25,9 @@ def outcome_key(res) -> tuple:
 # ---------------------------------------------------------------------------
 
 FILE_READERS = ["readf", "readkw", "readl", "readd", "readc", "readdir"]
+# tasks that *construct* the File values: a neutral edit of their body makes them run again (and
+# build fresh, not yet hashed File objects) without changing what they mean
+FILE_PARENTS = ["mk", "mkkw", "mkl", "mkd", "mkkwl", "mkc", "mkdir_", "deep"]
 
 FILE_FORMS = [
     # (name, source template with {p} = path literal, {q} = second path literal, {d} = dir literal)
@@ -59,14 +62,14 @@ def file_family_source(salts: dict, items: list) -> str:
          f"@task()\ndef readc(f):\n    hit('readc')\n    return mix('{S('readc')}', f.read())\n\n",
          f"@task()\ndef readdir(d):\n    hit('readdir')\n"
          f"    return mix('{S('readdir')}', sorted((os.path.basename(f.path), f.read()) for f in d))\n\n",
-         "@task()\ndef mk(path):\n    return readf(File(path))\n\n",
-         "@task()\ndef mkkw(path):\n    return readkw(1, f=File(path))\n\n",
-         "@task()\ndef mkl(path, q):\n    return readl([File(path), File(q)])\n\n",
-         "@task()\ndef mkd(path):\n    return readd({'a': File(path)})\n\n",
-         "@task()\ndef mkkwl(path, q):\n    return readkw(2, g=[File(path), File(q)])\n\n",
-         "@task()\ndef mkc(path):\n    return readc(ContentFile(path))\n\n",
-         "@task()\ndef mkdir_(path):\n    return readdir(Dir(path))\n\n",
-         "@task()\ndef deep(path):\n    return [mk(path), mkkw(path)]\n\n",
+         f"@task()\ndef mk(path):\n    _salt = {salts.get('P:mk', 0)}\n    return readf(File(path))\n\n",
+         f"@task()\ndef mkkw(path):\n    _salt = {salts.get('P:mkkw', 0)}\n    return readkw(1, f=File(path))\n\n",
+         f"@task()\ndef mkl(path, q):\n    _salt = {salts.get('P:mkl', 0)}\n    return readl([File(path), File(q)])\n\n",
+         f"@task()\ndef mkd(path):\n    _salt = {salts.get('P:mkd', 0)}\n    return readd({{'a': File(path)}})\n\n",
+         f"@task()\ndef mkkwl(path, q):\n    _salt = {salts.get('P:mkkwl', 0)}\n    return readkw(2, g=[File(path), File(q)])\n\n",
+         f"@task()\ndef mkc(path):\n    _salt = {salts.get('P:mkc', 0)}\n    return readc(ContentFile(path))\n\n",
+         f"@task()\ndef mkdir_(path):\n    _salt = {salts.get('P:mkdir_', 0)}\n    return readdir(Dir(path))\n\n",
+         f"@task()\ndef deep(path):\n    _salt = {salts.get('P:deep', 0)}\n    return [mk(path), mkkw(path)]\n\n",
          f"@task()\ndef t0():\n    return [{', '.join(items)}]\n"]
     return "".join(L)
 
@@ -112,7 +115,7 @@ class C02(EngineACheck):
         "caching with its own seeded schedule, on a fresh or on the reused Scheduler object, and "
         "is compared with the same program version on an empty backend; a case is (program "
         "family, history); non-trivial = at least one step replayed something from the cache "
-        "after an edit. One history in three instead uses a family of input-file readers (File "
+        "after an edit. Every second history instead uses a family of input-file readers (File "
         "passed positionally, by keyword, nested in list / dict, inside the expression a parent "
         "returns, ContentFile, Dir) with input-file rewrites "
         "(other size; same size, later mtime; recreated; restored) from a simulated clock and "
@@ -192,15 +195,28 @@ class C02(EngineACheck):
                                 write(path, f"initial-{files.index(path)}")
                                 desc.append(f"restore-initial-content:{base}")
                                 out.probe("input_rewrites")
-                            elif kind in (4, 5):
+                            elif kind == 4:
                                 r = FILE_READERS[ch.choice(len(FILE_READERS), "edit-reader")]
                                 v = ch.choice(3, "salt")
                                 if v != salts.get(r, 0):
                                     out.probe("reverts" if v == 0 else "body_edits")
                                 salts[r] = v
                                 desc.append(f"{r}:body={v}")
+                            elif kind == 5:
+                                r = FILE_PARENTS[ch.choice(len(FILE_PARENTS), "edit-parent")]
+                                salts["P:" + r] = ch.choice(3, "parent-salt")
+                                out.probe("parent_body_edits")
+                                desc.append(f"{r}:neutral-edit={salts['P:' + r]}")
                             else:
                                 desc.append("no-edit")
+                        if any(d.startswith(("rewrite", "restore")) for d in desc) \
+                                and ch.coin(0.4, "parent-edit-with-rewrite"):
+                            # the input changes *and* the task that builds the File value runs
+                            # again (fresh, not yet hashed File objects)
+                            r = FILE_PARENTS[ch.choice(len(FILE_PARENTS), "edit-parent")]
+                            salts["P:" + r] = (salts.get("P:" + r, 0) + 1) % 3
+                            out.probe("parent_body_edits")
+                            desc.append(f"{r}:neutral-edit={salts['P:' + r]}")
                         prog = RawProgram(file_family_source(salts, items))
                         sess.reload(prog)
                     fresh = enginea.simulate(ch, prog, db_path=schedsim.fresh_db("fresh.db"),
@@ -243,7 +259,7 @@ class C02(EngineACheck):
         return out
 
     def run_one(self, ch: Choices) -> RunOutcome:
-        if ch.choice(3, "program-family") == 2:
+        if ch.choice(2, "program-family") == 1:
             return self.run_file_family(ch)
         out = RunOutcome()
         # Known finding: catch() keys its cache entry without the hashes of the tasks involved.
